@@ -872,6 +872,30 @@ def c17_callback_arguments(tier="quick", seed=0):
                     bad = (src, f"{got!r}, ECMAScript 'accepted'")
         out.append(ob(f"C17.bounded.callback-arguments.{m}", bad is None, "B", f"{n} (receiver, callback value) cases" if bad is None else f"{bad[0]}: {bad[1]}",
                       witness=(bad[0] if bad else None), confirmed=True if bad else None, domain=n))
+    # thisArg: the callback's this is exactly the value given (strict functions: no boxing, no defaulting), falsy values included
+    bad = None
+    n = 0
+    for m in ("map", "forEach", "filter", "some", "every", "find", "findIndex"):
+        for tv, want in [("0", "number:0"), ("''", "string:"), ("false", "boolean:false"), ("null", "object:null"), ("undefined", "undefined:undefined"), ("NaN", "number:NaN"), ("5", "number:5"),
+                         ("'s'", "string:s"), ("true", "boolean:true"), ("-0", "number:0")]:
+            src = f"var seen = 'not called'; [7].{m}(function () {{ seen = typeof this + ':' + this; return false }}, {tv}); seen"
+            n += 1
+            try:
+                got = Context(time_limit=10).eval(src)
+            except BaseException as e:  # noqa
+                got = f"!{type(e).__name__}: {e}"[:100]
+            if got != want and bad is None:
+                bad = (src, f"{got!r}, ECMAScript {want!r}")
+        for src, want in [(f"var o = {{k: 1}}; var same; [7].{m}(function () {{ same = this === o; return false }}, o); same", True),
+                          (f"var seen; [7].{m}(function () {{ seen = typeof this; return false }}); seen", "undefined")]:
+            n += 1
+            try:
+                got = Context(time_limit=10).eval(src)
+            except BaseException as e:  # noqa
+                got = f"!{type(e).__name__}: {e}"[:100]
+            if got != want and bad is None:
+                bad = (src, f"{got!r}, ECMAScript {want!r}")
+    out.append(ob("C17.bounded.callback-arguments.thisArg", bad is None, "B", f"{n} (method, thisArg) cases" if bad is None else f"{bad[0]}: {bad[1]}", witness=(bad[0] if bad else None), confirmed=True if bad else None, domain=n))
     bad = None
     n = 0
     for recv in ("[]", "[2, 1]"):
